@@ -64,16 +64,27 @@ class Parser:
 
     def orx(self):
         left = self.andx()
+        operands, pure_or = [left], True
         while self.peek() in ('or', 'XOR', 'xor'):
             op = self.eat()
-            left = ('OR' if op == 'or' else 'XOR', left, self.andx())
+            right = self.andx()
+            pure_or = pure_or and op == 'or'
+            operands.append(right)
+            left = ('OR' if op == 'or' else 'XOR', left, right)
+        if pure_or and len(operands) > FLAT_FROM:
+            return ('ORN', tuple(operands), None)      # very long chain: kept flat (see ev)
         return left
 
     def andx(self):
         left = self.unary()
+        operands = [left]
         while self.peek() == 'and':
             self.eat()
-            left = ('AND', left, self.unary())
+            right = self.unary()
+            operands.append(right)
+            left = ('AND', left, right)
+        if len(operands) > FLAT_FROM:
+            return ('ANDN', tuple(operands), None)
         return left
 
     def unary(self):
@@ -93,12 +104,34 @@ class Parser:
         return tok
 
 
+FLAT_FROM = 200     # chains of more operands than this are represented n-ary (a left-nested tuple would exhaust the stack)
+
+
+def ev(tree, sel):
+    """sem.ev plus the flat n-ary nodes of very long and / or chains."""
+    from .. import sem
+    if isinstance(tree, tuple) and tree[0] == 'ORN':
+        return any(ev(t, sel) for t in tree[1])
+    if isinstance(tree, tuple) and tree[0] == 'ANDN':
+        return all(ev(t, sel) for t in tree[1])
+    if isinstance(tree, tuple):
+        op, left, right = tree
+        if op == 'NOT':
+            return not ev(left, sel)
+        a, b = ev(left, sel), ev(right, sel)
+        return {'AND': a and b, 'OR': a or b, 'XOR': a != b, 'IMPLIES': (not a) or b, 'EQUIVALENCE': a == b}[op]
+    return sem.ev(tree, sel)
+
+
 def parse_lines(text):
     return [Parser(tokenize(l)).parse() for l in text.split('\n') if l.strip()]
 
 
 def idents(tree, acc):
-    if isinstance(tree, tuple):
+    if isinstance(tree, tuple) and tree[0] in ('ORN', 'ANDN'):
+        for t in tree[1]:
+            idents(t, acc)
+    elif isinstance(tree, tuple):
         idents(tree[1], acc)
         if tree[2] is not None:
             idents(tree[2], acc)
@@ -107,6 +140,12 @@ def idents(tree, acc):
 
 
 def configs(text, universe):
+    from .. import sem as _sem
+    with _sem.deep_recursion():
+        return _configs(text, universe)
+
+
+def _configs(text, universe):
     """Selections over `universe` satisfying every formula; identifiers outside the universe
     make the export uninterpretable."""
     from .. import sem
@@ -121,7 +160,7 @@ def configs(text, universe):
     names = list(universe)
     for bits in itertools.product((False, True), repeat=len(names)):
         sel = {n for n, b in zip(names, bits) if b}
-        if all(sem.ev(f, sel) for f in forms):
+        if all(ev(f, sel) for f in forms):
             out.add(frozenset(sel))
     return out, used
 
